@@ -13,6 +13,7 @@ Tie       every generated trajectory is saved through Trajectory.save in every f
           (iv)  md.load(save(t)) against t with exact rational arithmetic under the stated precision.
 """
 import base64
+import os
 import re
 import struct
 from fractions import Fraction as Fr
@@ -27,8 +28,8 @@ RULE = ("trajectories are lists of float32 bit patterns drawn per magnitude clas
         "_format_83 and of the 8.3 fields/rounding ties/signed zeros/clustered for XTC runs/over the field limit) "
         "x frames 1..6 x atoms {1..30} x cell {none, ortho, triclinic, per-frame} x times {default, non-uniform}; "
         "each is saved in every extension of Trajectory._savers (gro precision, pdb ter/header/bfactors varied); "
-        "a case is one (trajectory, format, options); distinct by hash of all of it; non-trivial when the file was "
-        "written and at least one coordinate is not an integer multiple of the format's resolution")
+        "a case is one (trajectory, format, options); distinct by hash of all of it; non-trivial when Trajectory.save "
+        "wrote the file (refused saves are counted as trivial)")
 TRUSTED = ["harness/impl/codec_impl.py (builds the trajectory from bit patterns, calls Trajectory.save/md.load, raw readers "
            "PyTables/netCDF4/struct)",
            "generator and exact-rational comparison (fractions.Fraction) in harness/props/C01.py",
@@ -386,8 +387,11 @@ def gen_traj(rng, cls, n_atoms, n_frames, cell, times):
         l0 = [f2b(rng.uniform(2.0, 9.0)) for _ in range(3)]
         a0 = [f2b(90.0)] * 3 if cell in ("ortho", "perframe") else [f2b(rng.choice([60.0, 75.5, 90.0, 100.25, 110.0, 120.0]))
                                                                     for _ in range(3)]
-        if cell == "tric" and all(b2f(a) == 90.0 for a in a0):
-            a0[0] = f2b(80.0)
+        if cell == "tric":
+            al, be, ga = [b2f(a) for a in a0]
+            valid = al + be + ga < 350 and al < be + ga - 5 and be < al + ga - 5 and ga < al + be - 5
+            if not valid or (al, be, ga) == (90.0, 90.0, 90.0):       # keep the cell non-degenerate and not orthorhombic
+                a0 = [f2b(80.0), f2b(95.5), f2b(100.25)]
         for i in range(n_frames):
             if cell == "perframe":
                 L.append([f2b(b2f(x) + 0.125 * i) for x in l0])
@@ -428,12 +432,15 @@ def build_trajs(ctx):
                   "time": [one(1.0), one(2.5)], "cell": None})
     trajs.append({"n_atoms": 2, "xyz": [[one(0.1), one(-10.0), one(0.3), one(1.0), one(2.0), one(3.0)]] * 3, "cls": "probe",
                   "time": [one(1.0), one(2.5), one(7.0)], "cell": None})
-    trajs.append({"n_atoms": 2, "xyz": [[one(0.1), one(0.2), one(0.3), one(1.0), one(2.0), one(3.0)]] * 2, "cls": "probe",
+    trajs.append({"n_atoms": 2, "xyz": [[one(0.1), one(0.2), one(0.3), one(1.0), one(2.0), one(3.0)],
+                                        [one(0.15), one(0.25), one(0.35), one(1.5), one(2.5), one(3.5)]], "cls": "probe",
                   "time": [one(1.0), one(2.5)],
                   "cell": {"lengths": [[one(3.0)] * 3] * 2, "angles": [[one(55.0)] * 3] * 2, "kind": "tric"}})
     trajs.append({"n_atoms": 3, "xyz": [[one(0.1 * k) for k in range(9)]] * 3, "cls": "probe",
                   "time": [one(1.0), one(2.5), one(7.0)],
                   "cell": {"lengths": [[one(3.0 + i)] * 3 for i in range(3)], "angles": [[one(90.0)] * 3] * 3, "kind": "perframe"}})
+    trajs.append({"n_atoms": 3, "xyz": [[one(0.1 * k) for k in range(9)], [one(0.2 * k) for k in range(9)]], "cls": "probe",
+                  "time": [one(1e-5), one(2.5)], "cell": None})
     atoms = [1, 2, 3, 4, 5, 8, 9, 10, 11, 12, 17, 23, 30]
     classes = ["unit", "unit", "tiny", "big", "edge", "tie", "zero", "cluster", "cluster", "over"]
     n = 46 if quick else 420
@@ -459,30 +466,75 @@ def build_trajs(ctx):
 
 
 # --------------------------------------------------------------------------- checking one save
-def hx32(bs):
-    return "".join("%08x" % b for b in bs)
+def pack_job(kind, ps, n32=(), n64=(), w64=32, txt=""):
+    """one job of the stream Run.run_stream decodes (see coq/Codec/Run.v)"""
+    out = [kind, len(ps)] + list(ps) + [len(n32)] + list(n32)
+    if w64 == 64:
+        raw = []
+        for b in n64:
+            raw += [b >> 32, b & 0xFFFFFFFF]
+    else:
+        raw = list(n64)
+    out += [len(raw)] + raw
+    data = txt.encode("latin-1")
+    out.append(len(data))
+    for k in range(0, len(data), 7):
+        chunk = data[k:k + 7].ljust(7, b"\0")
+        out.append(int.from_bytes(chunk, "big"))
+    return out
 
 
-def hx64(bs):
-    return "".join("%016x" % b for b in bs)
+def run_streams(ctx, streams, requires=("MD.Codec.Model", "MD.Codec.Run"), fn="run_stream", shards=8, min_per=20):
+    """streams: list of int lists (one per job).  Returns (bad job indices, errors); all shards in parallel."""
+    from concurrent.futures import ThreadPoolExecutor
+    if not streams:
+        return [], []
+    per = max(min_per, (len(streams) + shards - 1) // shards)
+    parts = [(k, streams[k:k + per]) for k in range(0, len(streams), per)]
+
+    def one(part):
+        off, js = part
+        flat = [x for j in js for x in j]
+        text = ("From Coq Require Import ZArith List.\nFrom Coq Require Import Uint63 PArray.\n" +
+                "".join("Require Import %s.\n" % r for r in requires) +
+                "Open Scope uint63_scope.\nDefinition data : PArray.array Uint63.int := [| %s | 0 |].\n" % ("; ".join(map(str, flat)) or "0") +
+                "Eval vm_compute in (%s data).\n" % fn)
+        rc, outp = ctx.coqc_text("stream_%s_%d" % (fn, off), text, timeout=900)
+        if os.environ.get("C01_KEEP"):
+            import shutil
+            shutil.copy(os.path.join(ctx.tmp, "stream_%s_%d.v" % (fn, off)), os.environ["C01_KEEP"])
+        if rc != 0:
+            return off, len(js), None, outp[-2000:]
+        m = re.search(r"=\s*\((\d+)%nat,(.*?)\)\s*:\s*nat \* list nat", outp, re.S)
+        if not m:
+            return off, len(js), None, "unparsed coqc output: " + outp[-1500:]
+        if int(m.group(1)) != len(js):
+            return off, len(js), None, "stream decoded %s jobs, %d were sent" % (m.group(1), len(js))
+        return off, len(js), [int(x) for x in re.findall(r"(\d+)%nat", m.group(2))], None
+    bad, errs = [], []
+    with ThreadPoolExecutor(max_workers=4) as ex:
+        for off, _n, b, e in ex.map(one, parts):
+            if e:
+                errs.append(e)
+            else:
+                bad += [off + i for i in b]
+    return sorted(bad), errs
 
 
 class Jobs:
-    """Coq evaluations collected during a run: Run.run_job on compact literals (numbers as hex strings: Coq's
-    number notation is slow on long literal lists), all evaluated by one sharded vm_compute pass."""
+    """Coq evaluations collected during a run: Run.run_job on compact streams (Coq's number/string notations
+    are too slow for long literals), all evaluated by one sharded vm_compute pass."""
 
     def __init__(self):
         self.items = []
 
-    def add(self, kind, ps, on_bad, n32=(), n64="", txt=""):
-        lit = "(Job %s %s %s %s %s)" % (cnat(kind), clist([cnat(p) for p in ps]), cstr(hx32(n32)), cstr(n64), cstr(txt))
-        self.items.append((lit, on_bad))
+    def add(self, kind, ps, on_bad, n32=(), n64=(), w64=32, txt=""):
+        self.items.append((pack_job(kind, ps, n32, n64, w64, txt), on_bad))
 
     def run(self, ctx):
         if not self.items:
             return
-        bad, errs = ctx.coq_mismatches(["MD.Codec.Model", "MD.Codec.Run"] + EXTRA_REQ, ("job", "bool"), "Bool.eqb", "run_job",
-                                       [(a, "true") for a, _ in self.items], shard=max(40, len(self.items) // 8 + 1))
+        bad, errs = run_streams(ctx, [a for a, _ in self.items])
         if errs:
             ctx.break_("correspondence:coqc-evaluation", "\n".join(errs))
             return
@@ -557,7 +609,7 @@ def fail(ctx, case, desc, observed, expected, **tags):
     ctx.fail(desc, case, observed=observed, expected=expected, tags=tags)
 
 
-def check_loaded(ctx, case, tj, sv, res, mem):
+def check_loaded(ctx, case, tj, sv, res, mem, skip_time=False):
     """(iv) md.load(save(t)) against t, exact rational comparison under the stated bounds."""
     ext, opts = sv["ext"], sv["opts"]
     lo = res["load"]
@@ -565,16 +617,18 @@ def check_loaded(ctx, case, tj, sv, res, mem):
     inr = in_field_range(tj, ext, opts)
     if "multi" in lo:
         return      # restart files are compared file by file in check_restart
+    texp = any("e" in repr(float(fr64(b))) or fr64(b) < 0 for b in mem["time"])
     if "err" in lo:
         if inr:
             fail(ctx, case, "%s: saved file cannot be loaded back (%s)" % (ext, lo["err"]["cls"]), lo["err"],
                  "a trajectory with %d frames" % T, kind="load_refuses", err=lo["err"]["cls"], n_atoms=n,
-                 cls=tj["cls"], explained_by=case.get("explained_by"))
+                 cls=tj["cls"], explained_by=case.get("explained_by"), time_exponent=texp,
+                 what="time" if (ext == ".gro" and lo["err"]["cls"] == "IndexError") else None)
         return
     if lo["n_frames"] != T or lo["n_atoms"] != n:
         fail(ctx, case, "%s: load(save(t)) has a different number of frames/atoms" % ext,
              {"n_frames": lo["n_frames"], "n_atoms": lo["n_atoms"]}, {"n_frames": T, "n_atoms": n},
-             kind="shape", n_atoms=n, explained_by=case.get("explained_by"))
+             kind="shape", n_atoms=n, explained_by=case.get("explained_by"), header=opts.get("header"), multi=T > 1)
         return
     if not inr:
         return
@@ -593,14 +647,14 @@ def check_loaded(ctx, case, tj, sv, res, mem):
     # time
     tmode = {".h5": 1, ".xtc": 1, ".trr": 1, ".nc": 1, ".netcdf": 1, ".ncdf": 1, ".gro": 1, ".dtr": 1,
              ".rst7": 1, ".ncrst": 1}.get(ext)
-    if tmode:
+    if tmode and not skip_time:
         t0 = [fr64(b) for b in mem["time"]]
         t1 = [fr64(b) for b in lo["time"]]
         rel = Fr(1, 10 ** 7) if ext == ".rst7" else Fr(0)
         bad = [i for i, (a, b) in enumerate(zip(t0, t1)) if abs(a - b) > rel * abs(a)]
         if bad:
             fail(ctx, case, "%s: load(save(t)) time stamps differ" % ext, [float(x) for x in t1], [float(x) for x in t0],
-                 kind="silent_diff", what="time")
+                 kind="silent_diff", what="time", time_exponent=texp)
     # unit cell
     cmode = {".h5": "la", ".xtc": "vec", ".trr": "vec", ".dcd": "la", ".nc": "la", ".netcdf": "la", ".ncdf": "la",
              ".mdcrd": "len", ".crd": "len", ".lammpstrj": "la", ".gro": "vec", ".pdb": "first", ".pdb.gz": "first",
@@ -645,6 +699,11 @@ def items_lit(pairs):
 
 
 def tie_break(ctx, case, what, detail):
+    """the model and the implementation disagree on a case: the tie is broken (reported once per kind)"""
+    seen = ctx.notes.setdefault("tie_break_counts", {})
+    seen[what] = seen.get(what, 0) + 1
+    if seen[what] > 1:
+        return
     ctx.break_("correspondence:%s" % what, "%s\ncase sid=%s ext=%s" % (detail, case["save"].get("sid"), case["save"]["ext"]))
     ctx.notes.setdefault("tie_examples", []).append({"what": what, "case": case, "detail": detail[:500]})
 
@@ -788,9 +847,9 @@ def check_raw(ctx, jobs, case, tj, sv, res, mem):
             return
         jobs.add(10 if scale else 11, [w],
                  lambda: native(what, [b2f(b) if w == 32 else float(fr64(b)) for b in rawbits[:6]], [b2f(b) for b in xs[:6]]),
-                 n32=xs, n64=hx32(rawbits) if w == 32 else hx64(rawbits), txt=ext)
+                 n32=xs, n64=rawbits, w64=w, txt=ext)
 
-    def one_nc(r, frames, unitw):
+    def one_nc(r, frames, unitw, skip_time=False):
         c = r.get("coordinates")
         if not c:
             native("coordinates variable", list(r), "coordinates")
@@ -803,7 +862,7 @@ def check_raw(ctx, jobs, case, tj, sv, res, mem):
         if t:
             want = [mem["time"][i] for i in frames]
             got = [fr32(b) if t["w"] == 32 else fr64(b) for b in t["b"]]
-            if got != [fr64(b) for b in want]:
+            if got != [fr64(b) for b in want] and not skip_time:
                 native("time", [float(x) for x in got], [float(fr64(b)) for b in want])
             if t.get("units") != unitw[1]:
                 native("time units attribute", t.get("units"), unitw[1])
@@ -824,7 +883,17 @@ def check_raw(ctx, jobs, case, tj, sv, res, mem):
     if ext in (".h5", ".nc", ".netcdf", ".ncdf"):
         one_nc(raw, range(T), UNITWORD[ext])
     elif ext == ".ncrst":
-        case["_ncrst_raw"] = raw
+        for fi, fn in enumerate(sorted(raw, key=lambda s: (len(s), s))):
+            one_nc(raw[fn], [fi] if T > 1 else [0], UNITWORD[ext], skip_time=T > 1)
+    elif ext == ".xtc":
+        data = base64.b64decode(res["files"]["s%d%s" % (sv["sid"], ext)]["b64"])
+        times = tj["time"] if tj.get("time") is not None else [f2b(float(i)) for i in range(T)]
+        uv = mem["uv"] if mem["uv"] else [0] * (9 * T)
+        jobs.add(12, [n, T], lambda: native("frames (Gallina XTC decoder)", "%d bytes" % len(data),
+                                            "header, time, box and quantised coordinates of every frame"),
+                 n32=flat + list(times) + list(uv), txt=data.decode("latin-1"))
+        jobs.add(13, [n, T], lambda: tie_break(ctx, case, "bytes[xtc]", "model encoder and xdrfile_compress_coord_float disagree"),
+                 n32=flat + list(times) + list(uv), txt=data.decode("latin-1"))
     elif ext == ".trr":
         fr = raw["frames"]
         if len(fr) != T or any(f["natoms"] != n or f["magic"] != 1993 for f in fr):
@@ -869,29 +938,57 @@ def check_restart(ctx, jobs, case, tj, sv, res, mem, rst_obs):
     files = sorted(res["files"], key=lambda s: (len(s), s))
     base = "s%d%s" % (sv["sid"], ext)
     obs = []
-    if T == 1:
-        per = {files[0]: lo} if "err" not in lo else {}
-    else:
-        per = lo.get("multi", {})
-    if not per:
-        return
-    for fn in files:
+    per = ({files[0]: lo} if "err" not in lo else {}) if T == 1 else lo.get("multi", {})
+    raw = res.get("raw") or {}
+    for fi, fn in enumerate(files):
         suffix = fn[len(base):]
-        L = per[fn]
-        # which frame is it?  nearest by coordinates (frames of generated trajectories are distinct)
+        # what the file holds, read independently of mdtraj: angstrom coordinates, time, cell lengths
+        try:
+            if ext == ".rst7":
+                lines = res["files"][fn]["text"].split("\n")
+                nl = (n + 1) // 2
+                nums = [Fr(l[k:k + 12].strip()) for l in lines[2:2 + nl] for k in range(0, len(l), 12)]
+                tfile = Fr(lines[1][5:].strip())
+                cfile = None
+                if len(lines) - 1 == 2 + nl + 1:
+                    cfile = [Fr(lines[2 + nl][k:k + 12].strip()) for k in range(0, 36, 12)]
+            else:
+                r = raw[fn]
+                c = r["coordinates"]
+                nums = [fr32(b) if c["w"] == 32 else fr64(b) for b in c["b"]]
+                t = r["time"]
+                tfile = fr32(t["b"][0]) if t["w"] == 32 else fr64(t["b"][0])
+                cfile = None
+                if "cell_lengths" in r:
+                    cl = r["cell_lengths"]
+                    cfile = [fr32(b) if cl["w"] == 32 else fr64(b) for b in cl["b"]]
+        except Exception as e:      # noqa: BLE001
+            if in_field_range(tj, ext, sv["opts"]):
+                tie_break(ctx, case, "layout[%s]" % ext, "cannot read %s independently: %r" % (fn, e))
+            return          # numbers beyond the 12.7 field: the columns run together, nothing to index
+
         def dist(i):
-            return sum(abs(fr32(a) - fr32(b)) for a, b in zip(tj["xyz"][i], L["xyz"]))
+            return sum(abs(fr32(a) * 10 - b) for a, b in zip(tj["xyz"][i], nums))
         pi = min(range(T), key=dist)
-        tl = fr64(L["time"][0])
-        tis = [i for i in range(T) if abs(fr64(mem["time"][i]) - tl) <= abs(tl) * Fr(1, 10 ** 7)]
+        tis = [i for i in range(T) if abs(fr64(mem["time"][i]) - tfile) <= abs(tfile) * Fr(1, 10 ** 7)]
         ti = pi if pi in tis else (tis[0] if tis else 999)
         ci = None
-        if L["lengths"] is not None and tj["cell"]:
+        if cfile is not None and tj["cell"]:
             def cdist(i):
-                return sum(abs(fr32(a) - fr32(b)) for a, b in zip(mem["lengths"][3 * i:3 * i + 3], L["lengths"][:3]))
+                return sum(abs(fr32(a) * 10 - b) for a, b in zip(mem["lengths"][3 * i:3 * i + 3], cfile))
             best = min(range(T), key=cdist)
             ci = pi if cdist(pi) == cdist(best) else best
+        elif cfile is not None:
+            ci = 998
         obs.append((suffix[1:] if suffix else None, pi, ti, ci))
+        if T > 1 and fi < T and fn in per:      # (iv) for numbered file fi against frame fi (time is judged by the indexing check)
+            sub = {"n_atoms": n, "xyz": [tj["xyz"][fi]], "cls": tj["cls"], "cell": None}
+            if tj["cell"]:
+                sub["cell"] = {"lengths": [tj["cell"]["lengths"][fi]], "angles": [tj["cell"]["angles"][fi]], "kind": tj["cell"]["kind"]}
+            smem = {"time": [mem["time"][fi]],
+                    "lengths": None if mem["lengths"] is None else mem["lengths"][3 * fi:3 * fi + 3],
+                    "angles": None if mem["angles"] is None else mem["angles"][3 * fi:3 * fi + 3], "uv": None}
+            check_loaded(ctx, case, sub, sv, {"load": per[fn]}, smem, skip_time=True)
     distinct_t = len({mem["time"][i] for i in range(T)}) == T
     distinct_x = len({tuple(f) for f in tj["xyz"]}) == T
     if distinct_t and distinct_x:
@@ -963,7 +1060,7 @@ def run_cases(ctx, trajs):
             T, n = len(tj["xyz"]), tj["n_atoms"]
             inr = in_field_range(tj, ext, sv["opts"])
             ctx.count({"t": case["traj"], "s": {"ext": ext, "opts": sv["opts"]}}, nontrivial=not res["save_err"],
-                      bucket="%s/%s/%s" % (ext, tj["cls"], (tj["cell"] or {}).get("kind", "none")))
+                      bucket="%s/%s" % (ext, tj["cls"]))
             if ext in (".rst7", ".ncrst"):
                 check_restart(ctx, jobs, case, tj, sv, res, mem, rst_obs)
                 if res["save_err"]:
@@ -985,7 +1082,7 @@ def run_cases(ctx, trajs):
                 if STD[ext][1] not in ("bin", "xtc"):
                     if inr or ext in (".xyz", ".xyz.gz", ".lammpstrj", ".pdb", ".pdb.gz"):
                         check_text(ctx, jobs, case, tj, sv, res, mem)
-                else:
+                elif inr:
                     check_raw(ctx, jobs, case, tj, sv, res, mem)
             except Exception as e:      # noqa: BLE001  malformed file: the tie is broken, not the harness
                 import traceback
@@ -1026,11 +1123,9 @@ def decide_mdcrd(ctx, mdcrd_cases):
                 if bx is not None:
                     nums += bx[3 * i:3 * i + 3]
         for strict in (False, True):
-            cases.append(("(Job 3%%nat %s %s \"\"%%string %s)" % (clist([cnat(n), cnat(1 if strict else 0), cnat(okind), cnat(obox)]),
-                                                               cstr(hx32(nums)), cstr(body)), "true"))
+            cases.append(pack_job(3, [n, 1 if strict else 0, okind, obox], n32=nums, txt=body))
             ix.append((ci, strict))
-    bad, errs = ctx.coq_mismatches(["MD.Codec.Model", "MD.Codec.Run"], ("job", "bool"), "Bool.eqb", "run_job", cases,
-                                   shard=max(40, len(cases) // 8 + 1))
+    bad, errs = run_streams(ctx, cases)
     if errs:
         ctx.break_("correspondence:coqc-evaluation[mdcrd reader]", "\n".join(errs))
         return
